@@ -147,6 +147,7 @@ package mqtt
 //@ end
 
 //@ func (*BaseClient).write
+//@   params c b
 //@   mode int
 //@   props C05 C10
 //@   requires c != nil && c.Transport != nil
@@ -160,6 +161,7 @@ package mqtt
 
 
 //@ func (*signaller).PubAck
+//@   params s id
 //@   role reader
 //@   mode int
 //@   props C07
@@ -170,6 +172,7 @@ package mqtt
 //@        return mapHas(s.chPubAck, k) == (k != id && snapHas(guardSnap(s.chPubAck), k)) && (!mapHas(s.chPubAck, k) || s.chPubAck[k] == snapGet(guardSnap(s.chPubAck), k)) })
 
 //@ func (*signaller).PubRec
+//@   params s id
 //@   role reader
 //@   mode int
 //@   props C07
@@ -180,6 +183,7 @@ package mqtt
 //@        return mapHas(s.chPubRec, k) == (k != id && snapHas(guardSnap(s.chPubRec), k)) && (!mapHas(s.chPubRec, k) || s.chPubRec[k] == snapGet(guardSnap(s.chPubRec), k)) })
 
 //@ func (*signaller).PubComp
+//@   params s id
 //@   role reader
 //@   mode int
 //@   props C07
@@ -190,6 +194,7 @@ package mqtt
 //@        return mapHas(s.chPubComp, k) == (k != id && snapHas(guardSnap(s.chPubComp), k)) && (!mapHas(s.chPubComp, k) || s.chPubComp[k] == snapGet(guardSnap(s.chPubComp), k)) })
 
 //@ func (*signaller).SubAck
+//@   params s id
 //@   role reader
 //@   mode int
 //@   props C07
@@ -200,6 +205,7 @@ package mqtt
 //@        return mapHas(s.chSubAck, k) == (k != id && snapHas(guardSnap(s.chSubAck), k)) && (!mapHas(s.chSubAck, k) || s.chSubAck[k] == snapGet(guardSnap(s.chSubAck), k)) })
 
 //@ func (*signaller).UnsubAck
+//@   params s id
 //@   role reader
 //@   mode int
 //@   props C07
@@ -210,6 +216,7 @@ package mqtt
 //@        return mapHas(s.chUnsubAck, k) == (k != id && snapHas(guardSnap(s.chUnsubAck), k)) && (!mapHas(s.chUnsubAck, k) || s.chUnsubAck[k] == snapGet(guardSnap(s.chUnsubAck), k)) })
 
 //@ func (*signaller).ConnAck
+//@   params s
 //@   role reader
 //@   mode int
 //@   props C07
@@ -217,6 +224,7 @@ package mqtt
 //@   requires s != nil
 
 //@ func (*signaller).PingResp
+//@   params s
 //@   role reader
 //@   mode int
 //@   props C07
@@ -224,6 +232,7 @@ package mqtt
 //@   requires s != nil
 
 //@ func (*BaseClient).serve
+//@   params c
 //@   role reader
 //@   mode int
 //@   props C04 C06 C07 C17 C11
@@ -298,6 +307,7 @@ package mqtt
 //@ closer BaseClient.connClosed (*BaseClient).Connect$1
 
 //@ func (*BaseClient).storePingError
+//@   params c
 //@   mode bv
 //@   props C13
 //@   requires c != nil
@@ -305,12 +315,14 @@ package mqtt
 //@   note statistics counters wrap around like any Go int (bit-vector semantics)
 
 //@ func (*BaseClient).storePingDelay
+//@   params c d
 //@   mode bv
 //@   props C13
 //@   requires c != nil
 //@   assigns c.stats
 
 //@ func (*BaseClient).SetErrorOnce
+//@   params c err
 //@   mode int
 //@   props C16
 //@   requires c != nil
@@ -318,6 +330,7 @@ package mqtt
 //@   ensures[C16] once: c.err == ite(guardVal(&c.err) != nil, guardVal(&c.err), err)
 
 //@ func (*BaseClient).Err
+//@   params c
 //@   mode int
 //@   props C16
 //@   requires c != nil
@@ -325,12 +338,14 @@ package mqtt
 //@   ensures[C16] result == guardVal(&c.err) && c.err == guardVal(&c.err)
 
 //@ func (*BaseClient).Close
+//@   params c
 //@   mode int
 //@   props C16
 //@   inline
 //@   requires c != nil && c.Transport != nil
 
 //@ func (*BaseClient).connStateUpdate
+//@   params c newState
 //@   mode int
 //@   props C16 C11
 //@   requires c != nil
@@ -360,6 +375,7 @@ package mqtt
 //@   ensures[C16] own_client: evArg[*BaseClient]("(*BaseClient).serve", 0, 0) == c && evArg[*BaseClient]("(*BaseClient).connStateUpdate", 0, 0) == c
 
 //@ func (*BaseClient).Disconnect
+//@   params c ctx
 //@   mode int
 //@   props C11 C16
 //@   requires c != nil && ctx != nil && c.Transport != nil
@@ -371,6 +387,7 @@ package mqtt
 //@   ensures[C16] closes: result == nil ==> evCount("Transport.Close") == 1
 
 //@ func (*BaseClient).Done
+//@   params c
 //@   mode int
 //@   props C16
 //@   requires c != nil
@@ -378,6 +395,7 @@ package mqtt
 //@   ensures[C16] result == c.connClosed
 
 //@ func (*BaseClient).Ping
+//@   params c ctx
 //@   mode int
 //@   props C07 C11 C13
 //@   requires c != nil && ctx != nil && c.Transport != nil
@@ -409,6 +427,7 @@ package mqtt
 //@   ensures o.Will == nil || (o.Will.QoS <= QoS2 && len(o.Will.Topic) <= 0xFFFF && len(o.Will.Payload) <= 0xFFFF)
 
 //@ func (*BaseClient).Handle
+//@   params c handler
 //@   mode int
 //@   props C17
 //@   requires c != nil
@@ -416,6 +435,7 @@ package mqtt
 //@   ensures[C17] c.handler == handler
 
 //@ func (*BaseClient).init
+//@   params c
 //@   mode int
 //@   props C16 C17
 //@   inline
@@ -424,6 +444,7 @@ package mqtt
 //@   ensures[C16] c.sig != nil && fresh(c.sig) && c.connClosed != nil && fresh(c.connClosed) && !closed(c.connClosed)
 
 //@ func (*BaseClient).Connect
+//@   params c ctx clientID opts
 //@   mode int
 //@   props C05 C07 C09 C11 C16 C17
 //@   requires c != nil && ctx != nil && c.Transport != nil && len(clientID) <= 0xFFFF
@@ -460,6 +481,7 @@ package mqtt
 // ---- CONNECT option constructors (C05): each sets exactly its own fields ----
 
 //@ func WithUserNamePassword$1
+//@   params o
 //@   mode int
 //@   props C05
 //@   requires o != nil
@@ -467,6 +489,7 @@ package mqtt
 //@   ensures[C05] sets: result == nil && o.UserName == userName && o.Password == password
 
 //@ func WithKeepAlive$1
+//@   params o
 //@   mode int
 //@   props C05 C13
 //@   requires o != nil
@@ -474,6 +497,7 @@ package mqtt
 //@   ensures[C05,C13] sets: result == nil && o.KeepAlive == interval
 
 //@ func WithCleanSession$1
+//@   params o
 //@   mode int
 //@   props C05
 //@   requires o != nil
@@ -481,6 +505,7 @@ package mqtt
 //@   ensures[C05] sets: result == nil && o.CleanSession == cleanSession
 
 //@ func WithWill$1
+//@   params o
 //@   mode int
 //@   props C05
 //@   requires o != nil && will != nil
@@ -490,6 +515,7 @@ package mqtt
 //@   ensures[C05] rejects_bad_qos: will.QoS > QoS2 ==> result != nil && o.Will == w0
 
 //@ func WithProtocolLevel$1
+//@   params o
 //@   mode int
 //@   props C05
 //@   requires o != nil
